@@ -401,7 +401,7 @@ func TestC04(t *testing.T) {
 // runs; "the target" of the second run is the address it was given for that run, whatever the value was used
 // for before. The last run is judged by the same reference as TestC04.
 func TestC04Reuse(t *testing.T) {
-	rec := NewRecorder("C04", "C04Reuse", "rapid scenarios of TestC04 for the udp and tcp (default and Paris) configuration values, run first against another address (or the same one) and then, with the Target field set, against the scenario's target; the last run is compared with the reference (destination marked exactly for the destination-form reply from the address of that run) and its probes must go to that address; non-trivial = the earlier run went to a different address and the last run read a destination-form reply")
+	rec := NewRecorder("C04", "C04Reuse", "rapid scenarios of TestC04 for the udp and tcp (default and Paris) configuration values, run first against another address and/or port (or the same ones) and then, with the Target and port fields set, against the scenario's target; the last run is compared with the reference (destination marked exactly for the destination-form reply from the address of that run) and its probes must go to that address; non-trivial = the earlier run went to a different address or port and the last run read a destination-form reply")
 	RunProp(t, rec, func(rt *rapid.T) *Scenario {
 		sc := GenScenario(rt, GenOpts{Variants: []string{"udp4", "udp6", "tcp", "tcp-paris"}, Noise: 4, Forms: true, WrongPlace: true, Dups: true, MaxSpan: 12, SmallTimes: true, OwnWindow: true})
 		sc.Reuse = 2
@@ -410,9 +410,13 @@ func TestC04Reuse(t *testing.T) {
 			pool = v6Targets
 		}
 		sc.ReuseFrom = oneOf(rt, "reuse_from", pool...)
-		if sc.ReuseFrom == sc.Target && !sc.Strict {
+		sc.ReusePort = oneOf(rt, "reuse_port", 0, 0, 53, 33434, 443)
+		if sc.ReusePort == sc.Port {
+			sc.ReusePort = 0
+		}
+		if sc.ReuseFrom == sc.Target && sc.ReusePort == 0 && !sc.Strict {
 			// relaxed matching identifies a quoted probe by target, destination port and IP ID only, all of which the
-			// two runs would share: a late answer to the first run is then, by that mode's definition, an answer to
+			// two runs would then share: a late answer to the first run is then, by that mode's definition, an answer to
 			// the second. The same address twice is therefore generated for strict matching only.
 			for _, a := range pool {
 				if a != sc.Target {
@@ -426,7 +430,7 @@ func TestC04Reuse(t *testing.T) {
 		sc.earlier = nil
 		ds, f := runAndCompare(t, sc, rec)
 		nt := false
-		if !f.Failed && sc.ReuseFrom != sc.Target {
+		if !f.Failed && (sc.ReuseFrom != sc.Target || sc.ReusePort != 0) {
 			for _, e := range f.O.Wire.Reads(sc.runIdx()) {
 				if e.Tag.IsDestForm {
 					nt = true
@@ -439,7 +443,7 @@ func TestC04Reuse(t *testing.T) {
 				ds = append(ds, Diff{"C04", "dest-hop-lookup", fmt.Sprintf("GetDestinationHop()=%v but reference destination TTL=%d", dh, f.Info.DestTTL)})
 			}
 		}
-		rec.Case(scenarioKey(sc), nt, sampleOf(sc, f), "variant:"+sc.Variant, fmt.Sprintf("same_target:%v", sc.ReuseFrom == sc.Target))
+		rec.Case(scenarioKey(sc), nt, sampleOf(sc, f), "variant:"+sc.Variant, fmt.Sprintf("same_target:%v", sc.ReuseFrom == sc.Target), fmt.Sprintf("same_port:%v", sc.ReusePort == 0))
 		return ds
 	})
 }
